@@ -150,6 +150,8 @@ def run(ctx):
                     batchA.append(ca), batchB.append(cb)
                 if deep or (hash((n1, n2)) + ctx.seed) % 4 == 0 or dim < 4:
                     arrays_agree(ctx, vector, dim, n1, n2, batchA, batchB, stats)
+    with numpy.errstate(all="ignore"):
+        allclose_lattice(ctx, vector, stats)
     ctx.coverage["evaluations"] = stats["evaluations"]
     ctx.coverage["distinct_nontrivial"] = len(distinct)
     ctx.coverage["equal_true_cases"] = n_true
@@ -158,6 +160,46 @@ def run(ctx):
         "object backend: operators == methods == numpy functions; laws on stratified operands": {"ok": not ctx.failures},
         "numpy/awkward elementwise == object": {"ok": not any(f["site"].startswith(("numpy", "awkward")) for f in ctx.failures)},
     }
+
+
+def allclose_lattice(ctx, vector, stats):
+    """allclose = all(isclose), with the caller's rtol AND atol, on every backend class (6 NumPy, 6 Awkward classes, objects):
+    same-system pairs that differ in ONE stored coordinate by d, expected |a-b| <= atol + rtol*|b| computed here"""
+    import awkward as ak
+    TOLS = [(1e-5, 1e-8), (1e-5, 1e-2), (0.0, 1e-2), (1e-2, 0.0), (1e-3, 1e-6), (0.5, 2.0)]
+    DIFFS = [0.0, 3e-6, 3e-3, 0.3, 1.5]
+    for dim in (2, 3, 4):
+        for si, names in enumerate(H.SYS[dim]):
+            for mom in (False, True):
+                rng = H.rng_for(ctx.seed, "C12allclose", names, mom)
+                base = [H.from_cart(names, *H.cart_stratum(rng, "quadrants", dim)) for _ in range(3)]
+                keys = [H.MOM.get(k, k) if mom else k for k in names]
+                for ci, cname in enumerate(names):
+                    for d in DIFFS:
+                        other = [dict(p) for p in base]
+                        other[1][cname] = other[1][cname] + d
+                        for rtol, atol in TOLS:
+                            want = all(abs(p[k] - q[k]) <= atol + rtol * abs(q[k]) for p, q in zip(base, other) for k in names)
+                            A = {kn: numpy.array([p[k] for p in base]) for k, kn in zip(names, keys)}
+                            B = {kn: numpy.array([p[k] for p in other]) for k, kn in zip(names, keys)}
+                            na, nb = vector.array(A), vector.array(B)
+                            aa, ab = vector.Array(ak.zip(A)), vector.Array(ak.zip(B))
+                            oa, ob = H.obj(vector, names, base[1], momentum=mom), H.obj(vector, names, other[1], momentum=mom)
+                            owant = all(abs(base[1][k] - other[1][k]) <= atol + rtol * abs(other[1][k]) for k in names)
+                            got = {"numpy.allclose method": bool(na.allclose(nb, rtol=rtol, atol=atol)),
+                                   "numpy.allclose function": bool(numpy.allclose(na, nb, rtol=rtol, atol=atol)),
+                                   "numpy all(isclose)": bool(numpy.all(na.isclose(nb, rtol=rtol, atol=atol))),
+                                   "awkward.allclose method": bool(aa.allclose(ab, rtol=rtol, atol=atol)),
+                                   "awkward all(isclose)": bool(ak.all(aa.isclose(ab, rtol=rtol, atol=atol)))}
+                            stats["evaluations"] += 6
+                            for k_, v in got.items():
+                                if v != want:
+                                    ctx.fail(f"allclose:{k_}:{dim}D:{H.sysname(names)}:{'momentum' if mom else 'generic'}",
+                                             f"{k_}(rtol={rtol}, atol={atol}) = {v} for arrays differing by {d} in {cname}; |a-b| <= atol + rtol|b| gives {want}",
+                                             {"a": base, "b": other, "rtol": rtol, "atol": atol})
+                            og = bool(oa.isclose(ob, rtol=rtol, atol=atol))
+                            if og != owant:
+                                ctx.fail(f"allclose:object.isclose:{dim}D:{H.sysname(names)}", f"isclose(rtol={rtol}, atol={atol}) = {og}, by hand {owant}", {"a": base[1], "b": other[1]})
 
 
 _run_without_compiled = run
